@@ -12,6 +12,23 @@ Lemma go_steps_eq : go_steps = Some [GHasher; GLen; GHash; GIdKey; GCallVerify].
 Proof. reflexivity. Qed.
 Lemma c_steps_eq : c_steps = Some [CRead; CInG1; CMap; CPair].
 Proof. reflexivity. Qed.
+(* the decoders and the signer still have the shape the models were written from *)
+Lemma decode_pk_skeleton :
+  skel_bls_blsBLS12381Algo_decodePublicKey =
+  [Guard "len(publicKeyBytes) != PubKeyLenBLSBLS12381"; Guard "readPointE2("; Guard "C.E2_in_G2("; Call "isInfinity()"]%string.
+Proof. reflexivity. Qed.
+Lemma decode_sk_skeleton :
+  skel_bls_blsBLS12381Algo_decodePrivateKey =
+  [Guard "len(privateKeyBytes) != PrKeyLenBLSBLS12381"; Guard "readScalarFrStar("]%string.
+Proof. reflexivity. Qed.
+Lemma sign_skeletons :
+  skel_bls_prKeyBLSBLS12381_Sign = [Guard "checkBLSHasher("; Call "ComputeHash("; Call "C.bls_sign("]%string /\
+  skel_bls_core_bls_sign = [Guard "map_to_G1("; Call "bls_sign_E1("]%string /\
+  skel_bls_core_bls_sign_E1 = [Call "E1_mult("; Call "E1_write_bytes("]%string /\
+  skel_bls_core_bls_verify_E1 = [Call "BLS12_381_minus_g2"; Call "Fp12_multi_pairing("; Guard "Fp12_is_one("]%string /\
+  skel_bls_checkBLSHasher = [Guard "hasher == nil"; Guard "hasher.Size() != expandMsgOutput"]%string.
+Proof. repeat split; reflexivity. Qed.
+
 Lemma sig_len_eq : Z.to_nat crypto_SignatureLenBLSBLS12381 = Z.to_nat C_G1_SER_BYTES.
 Proof. reflexivity. Qed.
 
